@@ -2,7 +2,7 @@ check("C16", "model_checking",
       "DataPlane.tla is checked by TLC (a notification goes to exactly the socket named by its From fields and echoes the packet; one 'service unknown' notice per remote unknown "
       "service, a synchronous error and no notice locally; never both delivered and answered; no notice about a notice). On real meshes every (sender, target, unbound service) is "
       "probed with 4 subscribed sockets per node and per-socket sentinel notices as barrier before the complete notification lists are compared; firewall drops are silent at "
-      "destination and in transit; DialContext to a never-bound and to a just-closed service returns within 5 s of the notice reaching the dialling socket; the close-while-sending "
+      "destination and in transit; DialContext to a never-bound and to a just-closed service must end because of the notice (cancelled by the unreachable monitor) and not by running out of time although notices had reached its socket; the close-while-sending "
       "race runs in a child process and every arrival is classified from the hook events (delivered / answered / overtaken by Close, never both, never lost otherwise, no crash); traces validated by TLC against DataPlaneTrace.tla.",
-      "Trusted: per-socket FIFO of notifications behind the node's broker; a datagram waiting for the reader when Close() runs may vanish without notice (one per deliverer); 5 s dial threshold vs 15 s handshake timeout.",
+      "Trusted: per-socket FIFO of notifications behind the node's broker; a datagram waiting for the reader when Close() runs may vanish without notice (one per deliverer); dials judged by cause (cancelled by the monitor vs. ran out of time with notices at the socket), not by a stopwatch.",
       "TLA+ spec + TLC exhaustive small scope; real-mesh conformance with barriers; trace validation (B2)", "E2 meshsim", "DESIGN.md section 6 C16")
